@@ -21,10 +21,12 @@ Imports nothing outside core Lean so that the line-protocol driver links.
 
 Conventions / what is not modelled
 * lengths that the wrappers obtain from Fortran `len`, `len_trim`, `size`
-  are `Nat`; the two parameters whose sign the C code tests (`nsrc` of
-  ShroudStrCopy, `ntrim` of ShroudStrAlloc) are `Int`.
-* `int nm = strlen(..)` is modelled without the truncation to 32 bits.
-* `strncpy(dst, NULL, 0)` (empty std::string result) is modelled as a no-op.
+  are `Nat` (they arrive as non-negative `int`); the two parameters whose sign
+  the C code tests (`nsrc` of ShroudStrCopy, `ntrim` of ShroudStrAlloc) are `Int`.
+* `int nm = strlen(..)`, `nsrc = strlen(src)` and a `size_t` actual passed for
+  the `int nsrc` parameter are narrowed with `narrow32` (LP64, wrap-around), so
+  the theorems carry the hypothesis that the text is shorter than 2^31 bytes and
+  `*_narrowing_oob` theorems show what happens at 2^31.
 * freshly `malloc`ed bytes hold the marker `UNINIT` (not a byte value).
 -/
 namespace Shroud.Str
@@ -52,6 +54,9 @@ inductive Res (α : Type) where
 instance : Monad Res where
   pure := .ok
   bind := Res.bind
+
+/-- a `size_t` value converted to `int` (two's complement wrap-around, LP64) -/
+def narrow32 (n : Nat) : Int := (((n + 2147483648) % 4294967296 : Nat) : Int) - 2147483648
 
 /-- bounds-checked load -/
 def rd (b : Buf) (i : Nat) : Res Nat :=
@@ -117,20 +122,30 @@ def lenTrim (src : Buf) (nsrc : Nat) : Res Nat := lenTrimAt src 0 nsrc
 
 /-! ### ShroudStrCopy -/
 
+/-- the part of ShroudStrCopy after `nsrc` is known (an `int`, possibly negative after narrowing):
+    `nm = nsrc < ndest ? nsrc : ndest; memcpy(dest,src,nm); if (ndest > nm) memset(dest+nm,' ',ndest-nm)`.
+    A negative `nm` becomes a huge `size_t` count for `memcpy`. -/
+def strCopyTail (dest : Buf) (ndest : Nat) (s : Buf) (n : Int) : Res Buf :=
+  let nm : Int := if n < (ndest : Int) then n else (ndest : Int)
+  if nm < 0 then .oob else
+  (memcpy dest 0 s 0 nm.toNat).bind fun d =>
+  if (ndest : Int) > nm then memset d nm.toNat BLANK (ndest - nm.toNat) else .ok d
+
 def strCopy (dest : Buf) (ndest : Nat) (src : Option Buf) (nsrc : Int) : Res Buf :=
   match src with
   | none => memset dest 0 BLANK ndest
   | some s =>
-    (if nsrc < 0 then strlen s else .ok nsrc.toNat).bind fun n =>
-    let nm := if n < ndest then n else ndest
-    (memcpy dest 0 s 0 nm).bind fun d =>
-    if ndest > nm then memset d nm BLANK (ndest - nm) else .ok d
+    (if nsrc < 0 then (strlen s).map narrow32 else .ok nsrc).bind (strCopyTail dest ndest s)
 
 /-! ### ShroudStrBlankFill -/
 
+/-- `int nm = strlen(dest); if (ndest > nm) memset(dest+nm,' ',ndest-nm);` -/
 def strBlankFill (dest : Buf) (ndest : Nat) : Res Buf :=
-  (strlen dest).bind fun nm =>
-  if ndest > nm then memset dest nm BLANK (ndest - nm) else .ok dest
+  (strlen dest).bind fun len =>
+  let nm := narrow32 len
+  if (ndest : Int) > nm then
+    (if nm < 0 then .oob else memset dest nm.toNat BLANK (ndest - nm.toNat))
+  else .ok dest
 
 /-! ### ShroudStrAlloc / ShroudStrFree -/
 
@@ -177,12 +192,16 @@ def charResultCtx (cxx : Option Buf) : Res (Option Buf × Nat) :=
   | none => .ok (none, 0)
   | some s => (strlen s).map fun n => (some s, n)
 
-/-- `ShroudCopyStringAndFree(data, c_var, c_var_len)` -/
+/-- `ShroudCopyStringAndFree(data, c_var, c_var_len)`:
+    `n = min(c_var_len, elem_len); if (n > 0) strncpy(c_var, cxx_var, n);` then the release
+    (observed by the harness: the destructor is called exactly once). -/
 def copyString (cxx : Option Buf) (elemLen : Nat) (cvar : Buf) (cvarLen : Nat) : Res Buf :=
   let n := if elemLen < cvarLen then elemLen else cvarLen
-  match cxx with
-  | none => if n = 0 then .ok cvar else .oob
-  | some s => strncpy cvar s 0 n
+  if n > 0 then
+    match cxx with
+    | none => .oob
+    | some s => strncpy cvar s 0 n
+  else .ok cvar
 
 /-- the two Fortran statements `allocate(character(len=elem_len) :: rv)` and
     `call copy_string(ctx, rv, elem_len)` -/
